@@ -202,8 +202,12 @@ def gen_case(rng):
         cand = [d for d in used if len(defs[d]['atoms']) >= 2]
         tmpl = rng.choice(cand) if cand else None
         vol = rng.choice(used)
+        if tmpl is not None and rng.random() < 0.4:
+            vol = tmpl          # template and size for the same residue
         build = {'template': tmpl, 'volume': vol, 'value': round(rng.uniform(0.3, 0.9), 3), 'split': rng.random() < 0.5,
                  'coords': None}
+        # the template of that residue given once more in a LATER build file (refined coordinates), without a size
+        build['repeat'] = tmpl is not None and vol == tmpl and rng.random() < 0.6
         if tmpl is not None:
             build['coords'] = [[round(rng.uniform(-0.5, 0.5), 3) for _ in range(3)] for _ in defs[tmpl]['atoms']]
     return {'defs': defs, 'moltypes': moltypes, 'build': build}
@@ -245,6 +249,12 @@ def build_files(case, wd):
         parts.append('\n'.join(lines) + '\n')
     parts.append(f"[ volumes ]\n{defs[b['volume']]['resname']} {b['value']}\n")
     paths = []
+    if b.get('repeat') and len(parts) == 2:
+        fp = pathlib.Path(wd) / 'b0.bld'
+        fp.write_text(''.join(parts) if not b['split'] else parts[1] + parts[0])
+        fp2 = pathlib.Path(wd) / 'b1.bld'
+        fp2.write_text(parts[0])
+        return [fp, fp2]
     if b['split'] and len(parts) == 2:
         for k, p in enumerate(parts):
             fp = pathlib.Path(wd) / f'b{k}.bld'
@@ -510,6 +520,8 @@ def run(ctx):
                     ctx.feature('vs_nested_' + case['defs'][d]['vs2nd']['kind'])
             if case['build']:
                 ctx.feature('build_file_split' if case['build']['split'] else 'build_file')
+                if case['build'].get('repeat'):
+                    ctx.feature('template_repeated_in_a_later_build_file')
             if 'error' in out:
                 ctx.feature('runs_failed')
             else:
